@@ -552,7 +552,7 @@ def run(rep):
                        "against Python floats only)",
                        "objects have no assert clauses; no self/super references in compared objects",
                        "a thunk is a value or a failure (its own evaluation is outside C08)"]
-    vlib.prelude(rep)
+    vlib.prelude(rep, extra_modules=['RsjProps.C08Eval'])
     rng = rep.rng
     quick = rep.tier == "quick"
     npools = 70 if quick else 2500
